@@ -177,8 +177,9 @@ class Report:
             ev["coverage"]["infos"] = self.infos[:50]
         if self.known_hits:
             ev["coverage"]["known_findings_reproduced"] = [k.get("what") for k in self.known_hits]
-        with open(os.path.join(EVIDENCE, self.prop + ".json"), "w") as f:
-            json.dump(ev, f, indent=1)
+        if not os.environ.get("VERIF_NO_EVIDENCE"):       # replays do not overwrite the evidence
+            with open(os.path.join(EVIDENCE, self.prop + ".json"), "w") as f:
+                json.dump(ev, f, indent=1)
         log("[%s] %s tier done in %.1fs: %d violation(s), %d known finding(s)" % (
             self.prop, self.tier, time.time() - self.t0, len(self.violations), len(self.known_hits)))
         return rc
